@@ -197,6 +197,10 @@ pub struct World<C: MlsConfig> {
     pub oplog: Vec<String>,
     pub scratch: String,
     pub psks: BTreeMap<Vec<u8>, Vec<u8>>,
+    /// identities every member's application refuses (revoked after their key package was proposed)
+    pub rejected: Vec<Vec<u8>>,
+    /// the group was re-initialised by a commit: the history ends
+    pub ended: bool,
 }
 
 /// Abstract view of one tree node, numbers from `Stamps`.
@@ -385,6 +389,8 @@ pub fn new_world<C: MlsConfig>(log: SharedCryptoLog, scratch: &str) -> World<C> 
         oplog: vec![],
         scratch: scratch.into(),
         psks: Default::default(),
+        rejected: vec![],
+        ended: false,
     }
 }
 
